@@ -250,3 +250,25 @@ def harvest(ctx, selection_name, kinds, pid_map=None, workers=16, k_expr=None, b
         return note
     finally:
         shutil.rmtree(outdir, ignore_errors=True)
+
+
+def replay(rp):
+    """Re-run the single repository test a rejected trace was harvested from, under the plugin, and validate again.
+    Returns 1 when a trace of that test is rejected again."""
+    rec = rp["record"]
+    test = rec.get("test") or rec.get("info", {}).get("test")
+    kind = "loop" if rp["kind"] == "harvest-loop" else "brownian"
+    outdir, summ = run_pytest([test], [kind], workers=0)
+    try:
+        recs, _ = load(outdir, kind)
+
+        class _C:
+            def add_tlc(self, *a):
+                pass
+        bad = validate_loop(_C(), recs, "replay", parallel=1) if kind == "loop" else validate_brownian(_C(), recs, "replay")
+        for b in bad[:5]:
+            print(b[1], b[2])
+        print(f"{len(recs)} traces harvested from {test}, {len(bad)} rejected")
+        return 1 if bad else 0
+    finally:
+        shutil.rmtree(outdir, ignore_errors=True)
